@@ -197,3 +197,57 @@ func H_C04_AltPrice() {
 	}
 	vrt.Assert(same, "alt-price-recalculation-changes-nothing")
 }
+
+// H_C04_Breakdown: a line whose price is built from a breakdown of one or two sub-lines (symbolic sub-line prices,
+// optional percentage discount on a sub-line), the group item declaring no currency, the document's or a foreign one
+// (with an exchange rate), a sub-line item optionally in the foreign currency too: calculating twice changes nothing.
+func H_C04_Breakdown() {
+	rule := skRule("rule")
+	p21 := skP21
+	curOf := func(name string) currency.Code {
+		switch vrt.Choice(name, 3) {
+		case 1:
+			return "EUR"
+		case 2:
+			return "USD"
+		}
+		return ""
+	}
+	group := &org.Item{Name: "group", Currency: curOf("group.cur")}
+	l := &Line{Quantity: num.MakeAmount(2, 0), Item: group, Taxes: tax.Set{{Category: "VAT", Percent: &p21}}}
+	n := 1 + vrt.Choice("sublines", 2)
+	for k := 0; k < n; k++ {
+		name := "s" + string(rune('0'+k))
+		pr := num.MakeAmount(vrt.Int64In(name+".price", -1000000, 1000000), 2)
+		sl := &SubLine{Quantity: num.MakeAmount(int64(1+k), 0), Item: &org.Item{Name: "part", Price: &pr}}
+		if k == 0 {
+			sl.Item.Currency = curOf("s0.cur")
+			if vrt.Choice("s0.disc", 2) == 1 {
+				p := skP10
+				sl.Discounts = []*LineDiscount{{Percent: &p}}
+			}
+		}
+		l.Breakdown = append(l.Breakdown, sl)
+	}
+	inv := &Invoice{Currency: "EUR", IssueDate: cal.MakeDate(2024, 3, 1), Tax: &Tax{Rounding: rule}, Lines: []*Line{l},
+		ExchangeRates: []*currency.ExchangeRate{{From: "USD", To: "EUR", Amount: num.MakeAmount(vrt.Int64In("rate", 1, 99999), 4)}}}
+	if calculate(inv) != nil {
+		return
+	}
+	vrt.Reach("breakdown-calculates")
+	first := c04Snapshot(inv)
+	firstCur := l.Item.Currency
+	if calculate(inv) != nil {
+		vrt.Assert(false, "breakdown-recalculates")
+		return
+	}
+	second := c04Snapshot(inv)
+	same := len(first.vals) == len(second.vals)
+	if same {
+		for k := range first.vals {
+			same = vrt.And(same, vrt.And(first.vals[k] == second.vals[k], first.exps[k] == second.exps[k]))
+		}
+	}
+	vrt.Assert(same, "breakdown-recalculation-changes-nothing")
+	vrt.Assert(l.Item.Currency == firstCur && len(l.Item.AltPrices) == 0, "group-item-currency-and-alternative-prices-stable")
+}
